@@ -153,7 +153,8 @@ PASS_RULES = [
     (r"throw UnknownLabelError\([^;]*\);", "{ VERIF_THROW(UnknownLabelError); return -1; }", 1, 1),
     (r"labelMap\[instrLabel->getLabel\(\)\]->getValue\(\)", "V_getValue(LABEL_TARGET(InstrLabel_getLabel(instrLabel)))", 1, 1),
     (r"instrLabel->isRelative\(\)", "InstrLabel_isRelative(instrLabel)", 1, 1),
-    (r"instrLabel->getSize\(\)", "V_getSize(instrLabel)", 1),
+    (r"instrLabel->getSize\(\)", "V_getSize(instrLabel)", 0),
+    (r"instrLen\(([^,()]+), ([^,()]+)\)", r"instrLen(\1, \2, 1)", 0),   # the default argument minLength=1 written out
     (r"instrLabel->setLength\(", "InstrLabel_setLength(instrLabel, ", 2),
     (r"instrLabel->setLabelValue\(", "InstrLabel_setLabelValue(instrLabel, ", 2),
     (r"unaligned = directive\.get\(\);", "unaligned = directive;", 1, 1),
